@@ -1,0 +1,17 @@
+//go:build verif
+
+// Contracts for govc (see /verif/DESIGN.md). Comment-only; compiled only with -tags verif.
+
+package tmapvalue
+
+//@ property C15 C07
+
+// a non-empty value is replaced by its mapping, or by the default when it has none; an empty value and all other fields
+// are left alone
+//@ func (tf *mapValueTransform) Transform(record *base.LogRecord) base.FilterResult
+//@   requires tf != nil && record != nil && 0 <= tf.keyLocator && tf.keyLocator < len(record.Fields)
+//@   modifies record.Fields[tf.keyLocator]
+//@   ensures  result == base.PASS
+//@   ensures[empty-untouched] len(old(record.Fields[tf.keyLocator])) == 0 ==> record.Fields[tf.keyLocator] === old(record.Fields[tf.keyLocator])
+//@   ensures[mapped] len(old(record.Fields[tf.keyLocator])) > 0 && has(tf.mapping, old(record.Fields[tf.keyLocator])) ==> record.Fields[tf.keyLocator] === tf.mapping[old(record.Fields[tf.keyLocator])]
+//@   ensures[default] len(old(record.Fields[tf.keyLocator])) > 0 && !has(tf.mapping, old(record.Fields[tf.keyLocator])) ==> record.Fields[tf.keyLocator] === tf.defaultValue
